@@ -34,6 +34,7 @@ type propConfig struct {
 // run on the real code on every check of the property.
 type boundedCheck struct {
 	Name, PkgRel, File, Run, Bound string
+	Module, Race                   bool // run in the generated-code module of /verif/replay (optionally under the race detector)
 }
 
 var propConfigs = map[string]propConfig{
@@ -45,6 +46,8 @@ var propConfigs = map[string]propConfig{
 	"C11": {Gen: true},
 	"C18": {Gen: true},
 	"C16": {},
+	"C13": {Gen: true, Bounded: []boundedCheck{{Name: "race-detector", Run: "TestBoundedC13", Module: true, Race: true,
+		Bound: "24 goroutines (8 per codec) each writing and reading back the same 40-record history concurrently after the pools were dirtied by other workloads, under the Go race detector; outputs compared byte for byte with the sequential run; one scheduler run, not a schedule enumeration"}}},
 	"C07": {Bounded: []boundedCheck{{Name: "rle-roundtrip", PkgRel: "internal/rle", File: "replay/rle_bounded_test.go.txt", Run: "TestBoundedC07",
 		Bound: "value round trip through an independent specification decoder and the library decoder on foreign legal encodings: every level sequence of length <= 12/6/4/3 for width 1/2/3/4, plus run-structured sequences around the 8-value, 63-group (504/505/512 values) and multi-byte-header (8191..8193 repeats) boundaries; 3 encodings per sequence"}}},
 }
@@ -351,12 +354,23 @@ func runCheck(o checkOpts) *CheckResult {
 	// bounded stand-ins
 	var boundedEv []string
 	for _, bc := range cfg.Bounded {
-		src, err := os.ReadFile(filepath.Join(o.verif, bc.File))
-		if err != nil {
-			boundedEv = append(boundedEv, bc.Name+": driver missing: "+err.Error())
-			continue
+		var src []byte
+		var out string
+		var err error
+		if bc.Module {
+			d := e.runDynTest(bc.Run, bc.Race, o)
+			out = d.Output
+			if d.Confirmed || !strings.Contains(out, "ok  \treplay") {
+				err = fmt.Errorf("failed")
+			}
+		} else {
+			src, err = os.ReadFile(filepath.Join(o.verif, bc.File))
+			if err != nil {
+				boundedEv = append(boundedEv, bc.Name+": driver missing: "+err.Error())
+				continue
+			}
+			out, err = runOverlayTestV(o.repo, bc.PkgRel, string(src), bc.Run)
 		}
-		out, err := runOverlayTestV(o.repo, bc.PkgRel, string(src), bc.Run)
 		cases := ""
 		for _, l := range strings.Split(out, "\n") {
 			if i := strings.Index(l, "BOUNDED-"); i >= 0 {
